@@ -92,22 +92,42 @@ def r1_worklists(ctx):
     # --- connected
     f = ctx.anchor(T + '::connected')
     if f:
-        vs = [s for s in f.calls() if s.name.endswith('connected::visit')]
+        scope = [f] + P.closures_of(f)
+        vs = [(g, s) for g in scope for s in g.calls() if s.name.endswith('connected::visit')]
         if ctx.floor('visit call in connected', len(vs), 1):
-            s = vs[0]
+            g, s = vs[0]
             arg = s.args[2]
-            root = arg['p']['l'] if arg.get('k') in ('copy', 'move') else None
-            # local that holds the visited vector: follow the &mut
-            t = f.expr_operand(arg, s.b, 'T')
+            t = g.expr_operand(arg, s.b, 'T')
             fresh = False
             for x in walk(t):
                 if x[0] == 'call' and x[1].split('::')[-1] in ('new', 'with_capacity', 'default') and 'Vec' in x[1]:
-                    fresh = set(f.loops_containing(x[3])) >= set(f.loops_containing(s.b)) and bool(f.loops_containing(s.b))
-            cleared = any(c.name.endswith('Vec::clear') and set(f.loops_containing(c.b)) >= set(f.loops_containing(s.b)) for c in f.calls())
+                    if g is f:
+                        fresh = set(f.loops_containing(x[3])) >= set(f.loops_containing(s.b)) and bool(f.loops_containing(s.b))
+                    else:
+                        # per-start closure (e.g. `(0..n).all(|start| { let mut visited = Vec::new(); .. })`): created inside the closure body
+                        fresh = True
+            cleared = any(c.name.endswith('Vec::clear') and set(g.loops_containing(c.b)) >= set(g.loops_containing(s.b)) for c in g.calls())
             ctx.check(fresh or cleared, 'fresh-visited-per-start', 'connected() explores from every start node with an empty visited set (reachability from each node, not only from node 0)', s.where(), show(t)[:120])
+            # the start node ranges over all nodes
+            if g is not f:
+                drv = [c for c in f.calls() if (c.callee or '') == 'std::iter::Iterator::all']
+                whole = False
+                for c in drv:
+                    it = f.expr_operand(c.args[0], c.b, 'T')
+                    rng = [y for y in walk(it) if y[0] == 'agg' and 'ops::Range' in str(y[1]) and len(y[2]) == 2]
+                    whole = whole or (bool(rng) and rng[0][2][0] == ('int', 0) and any(z[0] == 'call' and z[1].endswith('Vec::len') for z in walk(rng[0][2][1])))
+                ctx.check(whole, 'all-starts', 'connected() starts an exploration at every node index 0..nodes.len()', s.where())
         # result: every start must reach all nodes
         rets = [path_ret(f, p) for p, o, d in fn_paths(ctx, f) if o == 'return']
-        ctx.check(('int', 0) in rets and ('int', 1) in rets, 'connected-verdicts', 'connected() can answer both ways', f.where())
+        both = ('int', 0) in rets and ('int', 1) in rets
+        if not both and rets and all(r is not None and r[0] == 'call' and r[1].endswith('::all') for r in rets):
+            # `all(|start| visited.len() == n)`: the verdict is the conjunction over the starts of a length comparison
+            for g2 in P.closures_of(f):
+                for _, rt in ret_trees(g2):
+                    a_ = atom_of(rt, ('eq', 1))
+                    if a_ and a_[0] == 'cmp' and a_[1] == 'eq' and any(x[0] == 'call' and x[1].endswith('Vec::len') for x in walk(a_[2]) ) :
+                        both = True
+        ctx.check(both, 'connected-verdicts', 'connected() can answer both ways', f.where())
 
 
 def _edge_sites(ctx, f):
@@ -200,7 +220,11 @@ def r3_filters(ctx):
     h = ctx.anchor(T + '::bidirectional')
     if h:
         rets = [path_ret(h, p) for p, o, d in fn_paths(ctx, h) if o == 'return']
-        ctx.check(('int', 0) in rets and ('int', 1) in rets, 'bidirectional-verdicts', 'bidirectional() checks a reverse edge for every edge', h.where())
+        both = ('int', 0) in rets and ('int', 1) in rets
+        if not both and rets and all(r is not None and r[0] == 'call' and r[1].endswith('::all') for r in rets):
+            # all(.. all(.. any(back.dst == src))): the verdict is a conjunction over all edges of a reverse-edge search
+            both = any((c.callee or '').endswith(('Iterator::any', '::contains')) for g2 in P.closures_of(h) for c in g2.calls())
+        ctx.check(both, 'bidirectional-verdicts', 'bidirectional() checks a reverse edge for every edge', h.where())
 
 
 def run(ctx):
